@@ -1,0 +1,18 @@
+//go:build verif
+
+// Contracts (machine-checked specifications) for package types (interfaces), read by /verif's govc.
+// This file contains comments only and compiles to nothing with or without the tag.
+
+package types
+
+// ---------------------------------------------------------------------------------------------
+// Authority (C10)
+// ---------------------------------------------------------------------------------------------
+
+// The configured authority of an Authorizer: the keeper's authority string; any other implementation
+// has one too (uninterpreted).
+//@ smt (declare-fun otherAuthority (Iface) String)
+//@ macro authOfIface(a) = ite(istype(a, "*keeper.Keeper"), cast(a, "*keeper.Keeper").authority, otherAuthority(a))
+
+//@ func (self Authorizer) RequireAuthority(signer) (err)
+//@   ensures[C10] (err == nil) == (signer == authOfIface(self))
